@@ -3,6 +3,7 @@ package props
 import (
 	"fmt"
 	"math/rand/v2"
+	"slices"
 
 	"github.com/c2FmZQ/ech"
 
@@ -93,6 +94,10 @@ func alpnList(r *rand.Rand) []string {
 	var l []string
 	for i := 0; i <= r.IntN(6); i++ {
 		l = append(l, fmt.Sprintf("p%d-%x", i, gen.RandBytes(r, r.IntN(8))))
+	}
+	if n := len(l); n%2 == 0 {
+		// a GREASE protocol id (RFC 8701) somewhere in the list: an entry like any other
+		l = slices.Insert(l, n/2, string([]byte{byte(n)<<4 | 0x0a, byte(n)<<4 | 0x0a}))
 	}
 	return l
 }
